@@ -30,7 +30,7 @@ SURF_OPS = ["triangulate", "triangulate_face", "split_face_as_fan", "loop", "3qu
 
 def cases(seed, tier):
     rng = random.Random(seed * 69621 + 13)
-    n = 200 if tier == "quick" else 4000
+    n = 200 if tier == "quick" else 10000
     out = []
     for i in range(n):
         kind = ["surface", "surface", "surface", "volume", "polyline"][i % 5]
